@@ -70,6 +70,7 @@ type dConfig struct {
 	Deliver []string `json:"deliver"` // defaults.deliver
 	PullMid string   `json:"pull_mid,omitempty"`
 	Top     []string `json:"top,omitempty"` // further top-level blocks
+	Def     []string `json:"def,omitempty"` // further lines of the defaults block
 	Routes  []dRoute `json:"routes"`
 }
 
@@ -87,6 +88,9 @@ func (c dConfig) text(port int) string {
 		b.WriteString(l + "\n")
 	}
 	b.WriteString("defaults {\n")
+	for _, l := range c.Def {
+		b.WriteString("  " + l + "\n")
+	}
 	if len(c.Egress) > 0 {
 		b.WriteString("  egress {\n")
 		for _, l := range c.Egress {
@@ -231,6 +235,7 @@ func (dResolver) LookupIPAddr(_ context.Context, host string) ([]net.IPAddr, err
 type dEdit struct {
 	name string
 	f    func(c *dConfig)
+	on   string // the member the edit is applied to ("" = base)
 }
 
 func dEdits() []dEdit {
@@ -245,7 +250,43 @@ func dEdits() []dEdit {
 	rline := func(path, prefix, with string) func(c *dConfig) {
 		return func(c *dConfig) { rt := c.route(path); rt.Lines = replaceLine(rt.Lines, prefix, with) }
 	}
+	on := func(parent string, ed dEdit) dEdit { ed.on = parent; return ed }
+	secretsBlock := func(entries ...string) func(c *dConfig) {
+		return func(c *dConfig) {
+			c.Top = []string{"secrets {\n" + strings.Join(entries, "\n") + "\n}"}
+		}
+	}
+	s1 := func(value string) string {
+		return `  secret "S1" { value "raw:` + value + `"  valid_from "1999-01-01T00:00:00Z" }`
+	}
+	s2 := func(from, until string) string {
+		u := ""
+		if until != "" {
+			u = `  valid_until "` + until + `"`
+		}
+		return `  secret "S2" { value "raw:k2"  valid_from "` + from + `"` + u + ` }`
+	}
 	return []dEdit{
+		// ---- signing through named secrets with validity windows (the bubble's clock starts 2000-01-01)
+		e("sign:secret-ref", func(c *dConfig) {
+			secretsBlock(s1("k1"))(c)
+			t := c.target("/d1", 0)
+			t.Lines = replaceLine(t.Lines, "sign hmac", `sign hmac secret_ref "S1"`)
+		}),
+		on("sign:secret-ref", e("sign:secret-ref-value", secretsBlock(s1("k3")))),
+		on("sign:secret-ref", e("sign:secret-ref-second-version", func(c *dConfig) {
+			secretsBlock(s1("k1"), s2("1999-06-01T00:00:00Z", ""))(c)
+			t := c.target("/d1", 0)
+			t.Lines = append(t.Lines, `sign hmac secret_ref "S2"`)
+		})),
+		on("sign:secret-ref-second-version", e("sign:secret-selection-oldest", tline("/d1", 0, "sign secret_selection", `sign secret_selection oldest_valid`))),
+		on("sign:secret-ref-second-version", e("sign:secret-version-expired", secretsBlock(s1("k1"), s2("1999-06-01T00:00:00Z", "1999-12-01T00:00:00Z")))),
+		on("sign:secret-ref-second-version", e("sign:secret-version-not-yet-valid", secretsBlock(s1("k1"), s2("2001-01-01T00:00:00Z", "")))),
+		on("sign:secret-ref-second-version", e("sign:secret-versions-reordered", func(c *dConfig) {
+			t := c.target("/d1", 0)
+			t.Lines = replaceLine(t.Lines, `sign hmac secret_ref "S1"`, ``)
+			t.Lines = append(t.Lines, `sign hmac secret_ref "S1"`)
+		})),
 		// ---- deliver routes
 		e("route:deliver-added", func(c *dConfig) {
 			c.Routes = append(c.Routes, dRoute{Path: "/d5", Targets: []dTarget{{URL: "http://" + hostHooks + "/t12"}}})
@@ -348,6 +389,9 @@ func dEdits() []dEdit {
 			c.Egress = replaceLine(c.Egress, `allow "exact.test"`, ``)
 			c.Egress = append(c.Egress, `allow "exact.test"`)
 		}),
+		// ---- other things built once at boot (the pull API server, the ingress size limits)
+		e("boot:pull-max-batch", func(c *dConfig) { c.PullMid = `max_batch 1` }),
+		e("boot:defaults-max-body", func(c *dConfig) { c.Def = []string{`max_body 16`} }),
 		// ---- what a reload may apply
 		e("reloadable:ingress-password", rline("/d1", "auth basic", `auth basic "u" "q"`)),
 		e("reloadable:ingress-auth-removed", rline("/d1", "auth basic", ``)),
@@ -365,17 +409,30 @@ func dEdits() []dEdit {
 }
 
 type dMember struct {
-	name string
-	cfg  dConfig
+	name   string
+	cfg    dConfig
+	parent int // index of the member this one is one edit away from
 }
 
 func dFamily() []dMember {
 	base := dBase()
 	ms := []dMember{{name: "base", cfg: base}}
 	for _, ed := range dEdits() {
-		c := base.clone()
+		parent := 0
+		if ed.on != "" {
+			parent = -1
+			for i := range ms {
+				if ms[i].name == ed.on {
+					parent = i
+				}
+			}
+			if parent < 0 {
+				panic("c18 dispatch part: edit " + ed.name + " names the unknown member " + ed.on)
+			}
+		}
+		c := ms[parent].cfg.clone()
 		ed.f(&c)
-		ms = append(ms, dMember{name: ed.name, cfg: c})
+		ms = append(ms, dMember{name: ed.name, cfg: c, parent: parent})
 	}
 	return ms
 }
@@ -799,9 +856,9 @@ func dispatchDiffPart(r *runner.Run, t *testing.T) {
 			}
 		}
 	} else {
-		// every edit applied to the base and taken back again
+		// every edit applied to the member it is one edit away from, and taken back again
 		for i := 1; i < len(fam); i++ {
-			pairs = append(pairs, dPair{0, i}, dPair{i, 0})
+			pairs = append(pairs, dPair{fam[i].parent, i}, dPair{i, fam[i].parent})
 		}
 	}
 	only := ""
